@@ -278,7 +278,8 @@ fn exec(case: &Value) -> Value {
         .cloned()
         .unwrap_or_default()
         .iter()
-        .map(|v| json!([v["vehicleId"], v["shiftIndex"]]))
+        // the document names the fields of a violation in snake case (the activity and stop fields are camel case)
+        .map(|v| json!([v.get("vehicle_id").or_else(|| v.get("vehicleId")), v.get("shift_index").or_else(|| v.get("shiftIndex"))]))
         .collect();
     let simple = simplify_solution(&doc);
     json!({"routes": routes, "tours": simple["tours"], "statistic": simple["statistic"],
